@@ -40,7 +40,7 @@ class Rec(list):
         self.append((name, tuple(int(a) for a in args)))
 
 
-def execute(event, state, requestor, alt):
+def execute(event, state, requestor, alt, version=None):
     """Run the real do_action once; returns None for InvalidEventError, ('raise', repr) for
     another exception, else (effects, next_state)."""
     from pynetdicom import AE, evt
@@ -206,6 +206,8 @@ def execute(event, state, requestor, alt):
         pdu = A_ASSOCIATE_RQ(assoc_prim())
         if alt:
             pdu.protocol_version = 2
+        if version is not None:
+            pdu.protocol_version = version
         rq.put(pdu)
     elif n == 7:
         pq.put(assoc_prim(0))
